@@ -3,7 +3,7 @@ import vlib
 from checks import common_loops as cl, common_core as cc
 
 PID = "C02"
-RULE = ("One process per configuration: event loops {1,2,4} x joiner threads {1,2,4,16} x 6-120 tasks per joiner with bodies instant / busy 1 ms / 5 ms delay / panic with static message / panic with formatted message; each joiner submits, optionally dawdles, then timeout_join(3 s). "
+RULE = ("One process per configuration: event loops {1,2,4} x joiner threads {1,2,4,16} x 6-120 tasks per joiner with bodies instant / busy 1 ms / 5 ms delay / panic with static message / panic with formatted message; each joiner submits, optionally dawdles, then timeout_join(3 s); one task in seven is a try-join: the joiner waits until the task has finished, 20 ms more, and joins with a zero timeout, which must return the stored outcome. "
         "The task stamps 'finished' as its last statement. Oracle: the join returns Ok(Ok(Some(uid-derived value))) or Ok(Err(that task's panic message)); TimedOut only if the task had not finished; return - max(call, finish) <= 1 s (healthy: one poll slice). "
         "Every third case forces the lost-wakeup schedule through the `join:after_first_check` pause hook: the waiter is held after its first result check until the task has finished + 20 ms, then allowed to register. "
         "Every fifth case issues the joins from inside tasks: 1-8 parent tasks on one loop each submit 2-12 children (instant / busy / delay / panic) and join them from their own coroutine with a 5 s timeout (wait_task_result then runs queued tasks inline); same oracle, a timeout on a child that had not finished 200 ms before the deadline is not judged. "
